@@ -452,14 +452,22 @@ impl Runner {
                 let rc: Vec<(Uuid, Option<String>)> = recreated.iter().map(|(i, d)| (uuid_of(*i), d.clone())).collect();
                 self.vt.info_maintenance(&kss, &ru, &rc);
                 self.check_info(ctx);
-                "M".to_owned()
+                let (u, st) = self.vt.info_counters();
+                if u != 0 {
+                    ctx.fail(format!("{} tablet(s) of the TabletsInfo with unresolved replicas survive maintenance", u));
+                }
+                if st != 0 && !self.sh.tainted {
+                    ctx.fail(format!("{} replica entries of the TabletsInfo still point to a replaced or removed Node object after maintenance", st));
+                }
+                format!("M{}:{}", u, st)
             }
             'T' => {
                 if !arg.is_empty() {
                     return None;
                 }
                 let tables = self.check_info(ctx);
-                if tables.is_empty() {
+                let (u, st) = self.vt.info_counters();
+                let body = if tables.is_empty() {
                     "-".to_owned()
                 } else {
                     tables
@@ -467,7 +475,42 @@ impl Runner {
                         .map(|(k, t, l)| format!("{}.{}=[{}]", k, t, l.iter().map(show_view).collect::<Vec<_>>().join("|")))
                         .collect::<Vec<_>>()
                         .join("&")
+                };
+                format!("{}u{}s{}", body, u, st)
+            }
+            'D' => {
+                let (a, dc) = arg.split_once('@')?;
+                if dc.contains('@') {
+                    return None;
                 }
+                let (spec, tok) = a.split_once(':')?;
+                let (ks, tb) = spec.split_once('.')?;
+                if tb.contains('.') {
+                    return None;
+                }
+                let tok: i64 = tok.parse().ok()?;
+                let conv = |r: Vec<(Uuid, u32)>| r.iter().map(|(u, s)| (id_of(u) as u32, *s)).collect::<Vec<_>>();
+                let got = self.vt.info_dc_lookup(ks, tb, tok, dc).map(conv);
+                let full = self.vt.info_lookup(ks, tb, tok).map(conv);
+                if !self.sh.tainted {
+                    let want = full.map(|f| {
+                        f.into_iter()
+                            .filter(|(id, _)| self.sh.nodes.get(id).map(|d| d.as_deref() == Some(dc)).unwrap_or(false))
+                            .collect::<Vec<_>>()
+                    });
+                    if got != want {
+                        ctx.fail(format!(
+                            "TabletsInfo dc lookup {}.{} token {} datacenter {} = {} but the full replica list restricted to it is {}",
+                            ks,
+                            tb,
+                            tok,
+                            dc,
+                            got.as_ref().map(|g| show_reps(g)).unwrap_or("none".into()),
+                            want.as_ref().map(|g| show_reps(g)).unwrap_or("none".into())
+                        ));
+                    }
+                }
+                got.as_ref().map(|g| show_reps(g)).unwrap_or("none".to_owned())
             }
             'Q' => {
                 let (spec, tok) = arg.split_once(':')?;
@@ -1130,7 +1173,14 @@ fn info_history(rng: &mut Rng, len: usize) -> String {
                 let (f, l) = gen_range(rng, &pool);
                 ops.push(format!("A{}.{}:{}:{}:{}", rng.pick(&kss), rng.pick(&tbs), f, l, gen_reps(rng, max_id)));
             }
-            45..=64 => ops.push(format!("Q{}.{}:{}", rng.pick(&kss), rng.pick(&tbs), rng.pick(&pool))),
+            45..=56 => ops.push(format!("Q{}.{}:{}", rng.pick(&kss), rng.pick(&tbs), rng.pick(&pool))),
+            57..=64 => ops.push(format!(
+                "D{}.{}:{}@{}",
+                rng.pick(&kss),
+                rng.pick(&tbs),
+                rng.pick(&pool),
+                if rng.chance(1, 10) { "dcx" } else { *rng.pick(&DCS) }
+            )),
             65..=84 => {
                 let mut ks_items: Vec<String> = Vec::new();
                 for k in kss.iter() {
